@@ -947,6 +947,70 @@ func c02(run *ev.Run, tier string) {
 		}
 	}
 
+	// part 1d: a version range is two relations on the same package: both reach
+	// the metadata, in the order given
+	for _, f := range formats {
+		pair := map[string][]string{
+			"deb": {"libc6 (>= 2.30)", "libc6 (<< 3)"}, "ipk": {"libc6 (>= 2.30)", "libc6 (<< 3)"},
+			"rpm": {"glibc >= 2.30", "glibc < 3"}, "apk": {"musl>=1.2", "musl<2"}, "archlinux": {"glibc>=2.30", "glibc<3"},
+		}[f]
+		for _, rel := range []string{"depends", "provides", "conflicts", "replaces"} {
+			if f == "apk" && rel == "conflicts" {
+				continue
+			}
+			s := base()
+			items := []string{"first-" + rel, pair[0], "middle-" + rel, pair[1]}
+			switch rel {
+			case "depends":
+				s.Depends = items
+			case "provides":
+				s.Provides = items
+			case "conflicts":
+				s.Conflicts = items
+			case "replaces":
+				s.Replaces = items
+			}
+			run.Case("same-package-twice|"+rel+"|"+f, true)
+			res := buildYAML(s.YAML(), f)
+			if res.Err != nil || res.Panic != "" {
+				continue // a format may refuse a constraint spelling: loud
+			}
+			p := dec.Decode(f, res.Bytes, false)
+			if len(p.Errs) > 0 {
+				run.Violate("C02/"+f+"/undecodable", map[string]any{"case": "same package twice", "errors": p.Errs})
+				continue
+			}
+			var got []string
+			switch f {
+			case "deb", "ipk":
+				v, _ := p.MetaGet(map[string]string{"depends": "Depends", "provides": "Provides", "conflicts": "Conflicts", "replaces": "Replaces"}[rel])
+				got = splitList(v)
+			case "rpm":
+				tags := map[string][3]int{"depends": {dec.RpmTagRequireName, dec.RpmTagRequireVer, 0}, "provides": {dec.RpmTagProvideName, dec.RpmTagProvideVer, 0},
+					"conflicts": {dec.RpmTagConflictName, dec.RpmTagConflictVer, 0}, "replaces": {dec.RpmTagObsoleteName, dec.RpmTagObsoleteVer, 0}}[rel]
+				names, vers := p.Rpm.Hdr.StrList(tags[0]), p.Rpm.Hdr.StrList(tags[1])
+				for k, n := range names {
+					if n == "glibc" && k < len(vers) {
+						got = append(got, n+" "+vers[k])
+					}
+				}
+				atomic.AddInt64(&cmps, 1)
+				if len(got) != 2 || got[0] != "glibc 2.30" || got[1] != "glibc 3" {
+					run.Violate("C02/rpm/relation-on-same-package-merged-or-dropped/"+rel, map[string]any{"configured": items, "glibc_entries_in_header": got})
+				}
+				continue
+			case "apk":
+				got = dec.GetAll(p.Meta, map[string]string{"depends": "depend", "provides": "provides", "replaces": "replaces"}[rel])
+			default:
+				got = dec.GetAll(p.Meta, map[string]string{"depends": "depend", "provides": "provides", "conflicts": "conflict", "replaces": "replaces"}[rel])
+			}
+			atomic.AddInt64(&cmps, 1)
+			if strings.Join(got, "|") != strings.Join(items, "|") {
+				run.Violate("C02/"+f+"/relation-on-same-package-merged-or-dropped/"+rel, map[string]any{"configured": items, "in_package": got})
+			}
+		}
+	}
+
 	// part 2: all combinations of optional version components
 	for mask := 0; mask < 32; mask++ {
 		v := verParts{V: "4.5.6"}
